@@ -148,6 +148,28 @@ def run(r: Run):
                 r.violation("charge", {"generator": gen, "problem": problems[0].split(":")[0][:20]},
                             f"{gen} {item} z={z} carrier={float(c)}: " + "; ".join(problems),
                             observed={"line": line, "mode": mode, "neutral": base[(item, c)][:300], "impl": il[:300]})
+    # "charge 0 returns the neutral masses themselves": the carrier plays no part there, whatever it is — a placeholder such as
+    # NaN or an infinity included (compared with the same call under carrier 0; the two composition generators take a carrier)
+    for gen, items in (("conv", [(f, Fraction(0)) for f in small[:4]] + [("C:13=1,O:18=1", Fraction(0))]),
+                       ("brain", [(f, n) for f in FORMULAS[:4] for n in (0, 5)] + [("Na1", 0), ("H:2=4,C:0=2", 3)])):
+        nl = []
+        for item in items:
+            base_line = lines_for(gen, item, 0, Fraction(0))
+            parts = base_line.split("\t")
+            ci = 3 if gen == "conv" else 4
+            for cs in ("0/1", "nan/1", "inf/1", "-inf/1", "17976931348623157/1" + "0" * 0):
+                q = list(parts)
+                q[ci] = cs
+                nl.append("\t".join(q))
+        outs = r.impl(gen, nl)
+        for k in range(0, len(nl), 5):
+            for j in range(1, 5):
+                r.case((gen, "neutral-any-carrier", outs[k + j].split(" ")[0]), {"line": nl[k + j], "impl": outs[k + j][:120]})
+                if outs[k + j] != outs[k]:
+                    corr_ok = False
+                    r.violation("charge", {"generator": gen, "problem": "charge 0 depends on the carrier"},
+                                f"{gen} at charge 0 with carrier {nl[k + j].split(chr(9))[ci]}: {outs[k + j][:80]} — with carrier 0: {outs[k][:80]}",
+                                observed={"line": nl[k + j], "mode": gen, "neutral": outs[k][:300], "impl": outs[k + j][:300]})
     r.oblige("correspondence: every generator's pattern at charge z is the neutral pattern rescaled", "corr", corr_ok)
     return r.finish(RULE)
 
